@@ -48,6 +48,10 @@ type LSub struct {
 
 type LProgram struct {
 	Subs []LSub `json:"subs"`
+	// Decls: root declarations behind the prelude, one per line (C12: targets of ignore directives)
+	Decls []LStmt `json:"decls,omitempty"`
+	// Snippet: the program is a statement-only snippet (`# @scope: recv` + the statements of its only sub)
+	Snippet bool `json:"snippet,omitempty"`
 }
 
 var lintClean = []string{
@@ -190,6 +194,45 @@ func (g *lintGen) program(nUser int) LProgram {
 	return p
 }
 
+// lintRootDecls: root declarations that raise diagnostics located in themselves (unused, duplicated, syntax).
+var lintRootDecls = []string{
+	`table unused_t {}`,
+	`table unused_t2 { "a": "1" }`,
+	`acl unused_a {}`,
+	`acl unused_a2 { "192.168.0.0"/16; }`,
+	`backend unused_b { .host = "127.0.0.1"; }`,
+	`table dup_t { "a": "1" }`,
+	`table dup_t { "dup": "1" }`,
+	`acl dup_a { "10.0.0.0"/8; }`,
+	`acl dup_a { "10.1.0.0"/16; }`,
+	`ratecounter dup_rc { }`,
+	`ratecounter dup_rc { }`,
+	`penaltybox unused_pb { }`,
+	`ratecounter unused_rc { }`,
+	`sub unused_sub { set req.http.X-U = "1"; }`,
+	`table bad_t INTEGER { "a": "str" }`,
+	`backend bad_b { .nosuch = "x"; }`,
+	`director unused_d random { { .backend = b; .weight = 1; } }`,
+}
+
+// rootDecls draws 0-3 of them (distinct).
+func (g *lintGen) rootDecls() []LStmt {
+	n := rapid.IntRange(0, 3).Draw(g.t, "nroot")
+	seen := map[string]bool{}
+	var out []LStmt
+	for i := 0; i < n; i++ {
+		d := rapid.SampledFrom(lintRootDecls).Draw(g.t, "rootdecl")
+		if seen[d] && !strings.Contains(d, "dup_rc") {
+			continue
+		}
+		seen[d] = true
+		s := LStmt{Text: d, Lead: g.neutral(), Trail: g.neutral()}
+		s.ID = g.nextID
+		out = append(out, s)
+	}
+	return out
+}
+
 const lintPrelude = "backend b { .host = \"127.0.0.1\"; .port = \"1\"; }\ntable t { \"a\": \"1\", }\nacl office { \"10.0.0.0\"/8; }\nratecounter rc { }\n"
 
 // render prints the program; every statement gets First/Last line numbers (1-based).
@@ -200,8 +243,10 @@ func (p *LProgram) render() string {
 		b.WriteString(s + "\n")
 		line += 1 + strings.Count(s, "\n")
 	}
-	for _, l := range strings.Split(strings.TrimRight(lintPrelude, "\n"), "\n") {
-		w(l)
+	if !p.Snippet {
+		for _, l := range strings.Split(strings.TrimRight(lintPrelude, "\n"), "\n") {
+			w(l)
+		}
 	}
 	var stmts func(ss []LStmt, ind string)
 	stmts = func(ss []LStmt, ind string) {
@@ -241,6 +286,14 @@ func (p *LProgram) render() string {
 			w(ind + "}")
 			s.Last = line - 1
 		}
+	}
+	if !p.Snippet {
+		stmts(p.Decls, "")
+	}
+	if p.Snippet {
+		w("# @scope: recv")
+		stmts(p.Subs[0].Stmts, "")
+		return b.String()
 	}
 	for i := range p.Subs {
 		sub := &p.Subs[i]
